@@ -595,13 +595,13 @@ package task
 //@ guarded_by Compiler.dynamicCache Compiler.muDynamicCache                                                        [C18]
 
 // ---- C09: Go map iteration (random order) is confined to functions that do not depend on the order ---------
-// getVariables: special variables, every name set once; compiledTask / taskfile.Dotenv: the entries of ONE dotenv
-// file (names are unique within it; between files the first wins, in list order); itemsFromFor: `for: var:` over a
+// getVariables: special variables, every name set once (dotenv entries, whose values may refer to each other, are
+// added in sorted order: taskfile.Dotenv and compiledTask no longer range over the map); itemsFromFor: `for: var:` over a
 // map variable - the documented unordered iteration the property permits; deepcopy.Map: map to map;
 // env.GetFromVars: the environment list (a set); readDotEnv: TASK_X_ settings; collectKeys: sorted afterwards (its
 // contract); TaskfileGraph.Merge: the includes of each edge list are sorted before they are merged (its contract).
 // A map iteration added anywhere else (a decoder, a merge step, a new helper) fails here.
-//@ map_ranges : (*Compiler).getVariables (*Executor).compiledTask itemsFromFor deepcopy.Map env.GetFromVars experiments.readDotEnv fingerprint.collectKeys taskfile.Dotenv ast.(*TaskfileGraph).Merge   [C09]
+//@ map_ranges : (*Compiler).getVariables itemsFromFor deepcopy.Map env.GetFromVars experiments.readDotEnv fingerprint.collectKeys ast.(*TaskfileGraph).Merge   [C09]
 
 // ---- C11: no state survives from one task to the next except the declared run-time tables ----------------
 // Once set up, the Executor and the Compiler are written only through the listed fields (the table of run-once
